@@ -33,7 +33,10 @@ def step (s : Unit) (f : List String) : Unit × String :=
       -- the backend delivers the whole body: the error handler is not involved, the handler returns
       let out := relayOutcome { status := st, header := mkHdr rh, body := d } n none
       let back := out.1
-      some (squeeze ((if out.2.1 then toString back.status ++ " body=" ++ back.body ++ " H " ++ showHdr back.header clientDrop
+      -- interim (1xx) responses are passed on to the client as they arrive (`Got1xxResponse`); an upstream
+      -- pass-through middleware changes nothing
+      let pre := match Driver.kv f "pre" with | some p => if p = "" then "" else " pre=" ++ p | none => ""
+      some (squeeze ((if out.2.1 then toString back.status ++ pre ++ " body=" ++ back.body ++ " H " ++ showHdr back.header clientDrop
                       else "aborted")
         ++ tail out.2.2 (toString back.status)))
     (s, r.getD "bad-op")
